@@ -50,8 +50,66 @@ class SerialPool:
     def __exit__(self, *a):
         return False
 
-    def starmap(self, f, args):
+    def starmap(self, f, args, chunksize=None):
         return [f(*a) for a in args]
+
+    # the rest of multiprocessing.Pool's interface, with the semantics its documentation gives: ordered variants deliver in
+    # submission order; `imap_unordered` promises no order, and the stand-in takes the schedule in which the last task
+    # finishes first (a legal one: code whose result depends on it depends on worker timing)
+    def map(self, f, args, chunksize=None):
+        return [f(a) for a in args]
+
+    def imap(self, f, args, chunksize=1):
+        return iter([f(a) for a in args])
+
+    def imap_unordered(self, f, args, chunksize=1):
+        return iter([f(a) for a in args][::-1])
+
+    def apply(self, f, args=(), kwds=None):
+        return f(*args, **(kwds or {}))
+
+    class _Res:
+        def __init__(self, v):
+            self.v = v
+
+        def get(self, timeout=None):
+            return self.v
+
+        def wait(self, timeout=None):
+            pass
+
+        def ready(self):
+            return True
+
+        def successful(self):
+            return True
+
+    def apply_async(self, f, args=(), kwds=None, callback=None, error_callback=None):
+        r = f(*args, **(kwds or {}))
+        if callback:
+            callback(r)
+        return SerialPool._Res(r)
+
+    def map_async(self, f, args, chunksize=None, callback=None, error_callback=None):
+        r = [f(a) for a in args]
+        if callback:
+            callback(r)
+        return SerialPool._Res(r)
+
+    def starmap_async(self, f, args, chunksize=None, callback=None, error_callback=None):
+        r = [f(*a) for a in args]
+        if callback:
+            callback(r)
+        return SerialPool._Res(r)
+
+    def close(self):
+        pass
+
+    def join(self):
+        pass
+
+    def terminate(self):
+        pass
 
 
 _REAL_POOL = (F.Pool, IE.Pool)
